@@ -89,6 +89,9 @@ static void do_tokenize(console_t *c)
 		if (c->scratch.buf[i] == quote) {
 			quote = '\0';
 			c->scratch.buf[i] = '\0';
+			/* that was the closing quote of the final argument */
+			if (c->argc >= (int) lengthof(c->argv))
+				break;
 			continue;
 		}
 
@@ -99,7 +102,10 @@ static void do_tokenize(console_t *c)
 				c->scratch.buf[i] = '\0';
 			} else {
 				c->argv[c->argc] = c->scratch.buf + i;
-				if (++c->argc >= (int) lengthof(c->argv))
+				/* the final argument takes the rest of the line,
+				 * unless it is quoted: then it ends at its quote
+				 */
+				if (++c->argc >= (int) lengthof(c->argv) && !quote)
 					break;
 			}
 		}
